@@ -157,8 +157,8 @@ CLAIMED = {
             "trial-division filter (composites may pass by design); even moduli are refused by the Montgomery-based bn_mxp.",
             "DESIGN.md §5 C09"),
     "C14": ("Lean 4 proofs (streaming SHA-224/256/384/512 and BLAKE2s = FIPS 180-4 / RFC 7693 for every chunking; md_hmac/nist_kdf/md_xmd = "
-            "RFC 2104 / MGF1-KDF2 / RFC 9380; FIPS 197 InvCipher o Cipher = id; table-driven rijndaelKeySetupEnc/rijndaelEncrypt = FIPS 197; "
-            "rijndaelDecrypt = equivalent inverse cipher; PKCS#7 + CBC round trip and rejection, concrete) + tables/constants extracted from the "
+            "RFC 2104 / MGF1-KDF2 / RFC 9380; FIPS 197 InvCipher o Cipher = id; table-driven rijndaelKeySetupEnc/Dec + rijndaelEncrypt/Decrypt = "
+            "FIPS 197 Cipher / InvCipher; PKCS#7 + CBC round trip and rejection, concrete, over the table code) + tables/constants extracted from the "
             "C text and kernel-checked + correspondence against standard-derived Lean specs",
             "Proved in Lean for the models (which mirror the C control flow and are executed on every line): the Reset/Input/Result code of "
             "sha224-256.c and sha384-512.c (one parametric model) and blake2s-ref.c init/init_key/update/final equal the one-shot FIPS 180-4 / "
@@ -167,15 +167,14 @@ CLAIMED = {
             "SHA streams incl. its abort conditions equal their standards; FIPS 197 InvCipher inverts Cipher for every key size, key and block "
             "(S-box bijection over 256 entries, ShiftRows, MixColumns via GF(2^8) linearity, any round-key list); the word-level mirror of "
             "rijndaelKeySetupEnc + rijndaelEncrypt over the tables extracted from the C text equals FIPS 197 KeyExpansion + Cipher for every "
-            "key and block, rijndaelDecrypt equals the par. 5.3.5 equivalent inverse cipher (= InvCipher) on a word array holding the "
-            "decryption keys; PKCS#7 unpad o pad = id, padEncrypt/padDecrypt = CBC o PKCS#7 of the spec for every length incl. 0, decryption "
+            "key and block, rijndaelKeySetupDec + rijndaelDecrypt equal the par. 5.3.5 key schedule + equivalent inverse cipher (= InvCipher) "
+            "for every key and block; PKCS#7 unpad o pad = id, padEncrypt/padDecrypt = CBC o PKCS#7 of the spec for every length incl. 0, decryption "
             "returns data only for well-formed padding, dec o enc = id with no hypothesis on the block cipher. Kernel-checked on every run "
             "against the C text: all entries of Te0..Te4, Td0..Td4, rcon; K/H0/IV/sigma of the hash files. Tie: outputs of the library's "
             "one-shot AND incremental APIs (arbitrary chunk splits, Result/final in between, preset counters) are compared with model and "
             "spec on all lengths around every padding boundary, all key sizes, corrupted ciphertexts and short buffers.",
             "Trusted: Lean kernel; hand-written models tied by correspondence; the round functions (SHA*ProcessMessageBlock, blake2s_compress) "
-            "are the specification's functions compared per line (constants tied by proof); rijndaelKeySetupDec is executed and its per-word "
-            "facts proved but not its loops (decryption theorems over the table code assume the key array); translators tools/translate_aes.py, "
+            "are the specification's functions compared per line (constants tied by proof); translators tools/translate_aes.py, "
             "tools/translate_md.py parse C initialisers.",
             "DESIGN.md §5 C14"),
     "C15": ("Lean 4 refinement proof (byte-level DRBG model ⊑ SP 800-90A spec, induction over histories) + correspondence run",
